@@ -104,6 +104,9 @@ fn it_keys_values(sh: Shape) {
     let n = m.len();
     let mut ks = m.keys();
     let mut vs = m.values();
+    // clones taken at the start are independent: still complete after the originals are exhausted
+    let kc = ks.clone();
+    let vc = vs.clone();
     let mut steps = 0usize;
     let mut seen = 0usize;
     loop {
@@ -124,6 +127,23 @@ fn it_keys_values(sh: Shape) {
     }
     assert!(steps == n && seen == if pre_q.is_some() { 1 } else { 0 }, "[C08] keys()/values() do not yield each element exactly once");
     assert!(ks.next().is_none() && vs.next().is_none(), "[C08] keys()/values() not fused");
+    assert!(kc.len() == n && vc.len() == n && kc.size_hint() == (n, Some(n)) && vc.size_hint() == (n, Some(n)), "[C08] a clone of keys()/values() was advanced by the original");
+    let mut kseen = 0usize;
+    let mut kcount = 0usize;
+    for k in kc {
+        kcount += 1;
+        assert!(kcount <= n, "[C08] cloned keys() yields too many elements");
+        if *k == q {
+            kseen += 1;
+        }
+    }
+    assert!(kcount == n && kseen == if pre_q.is_some() { 1 } else { 0 }, "[C08] cloned keys() does not yield each key exactly once");
+    let mut vcount = 0usize;
+    for _ in vc {
+        vcount += 1;
+        assert!(vcount <= n, "[C08] cloned values() yields too many elements");
+    }
+    assert!(vcount == n, "[C08] cloned values() does not yield each value exactly once");
     kani::cover!(is_split(&m) && n > 0, "cls: iterated a split map");
     kani::cover!(true, "reach: end of harness");
     core::mem::forget(m);
